@@ -63,7 +63,9 @@ class C18(Machine):
                   "nspecies": nsp, "genes": [rng.randint(1, 5) for _ in range(nsp)],
                   "species_tree": gen.ultrametric_spec(rng, ["S%d" % i for i in range(nsp)]),
                   "edge_pop": rng.random() < 0.5, "root_len": rng.choice([None, None, 0.25, 2.0]), "junk": rng.choice([0, 0, 7, 101, 1000, 4096]),
-                  "sd": rng.choice([0.0, 0.0, 0.1]), "period": rng.choice([None, 0.1, 1.0, 5.0])}
+                  "sd": rng.choice([0.0, 0.0, 0.1]), "period": rng.choice([None, 0.1, 1.0, 5.0]),
+                  "strategy": rng.choice(["node_attribute", "node_attribute", "fixed_per_population", "random_uniform"]),
+                  "reuse_species_tree": rng.random() < 0.5}
             steps.append(st)
         return {"config": {}, "initial": {}, "steps": steps}
 
@@ -98,13 +100,19 @@ class C18(Machine):
             return "kingman_shape", coalescent.pure_kingman_tree_shape(n, pop_size=st["pop_size"] or 1, rng=rng), n
         if sim in ("contained_coalescent", "constrained_kingman"):
             labels = ["S%d" % i for i in range(st["nspecies"])]
-            sns = dendropy.TaxonNamespace(labels)
-            stree = gen.build_tree(dendropy, st["species_tree"], sns, is_rooted=True)
-            if st.get("root_len"):
-                stree.seed_node.edge.length = st["root_len"]     # as on every tree that comes out of a simulator or a "):0.25;" Newick string
-            if st["edge_pop"]:
-                for k, nd in enumerate(rawtree.raw_nodes(stree)):
-                    nd.edge.pop_size = [0.5, 1.0, 2.0, 10.0][k % 4]
+            if st.get("reuse_species_tree") and self._species is not None:
+                # many gene trees are simulated inside one species tree object: the call must not depend on what an earlier
+                # call left behind on it
+                sns, stree = self._species
+            else:
+                sns = dendropy.TaxonNamespace(labels)
+                stree = gen.build_tree(dendropy, st["species_tree"], sns, is_rooted=True)
+                if st.get("root_len"):
+                    stree.seed_node.edge.length = st["root_len"]     # as on every tree that comes out of a simulator or a "):0.25;" Newick string
+                if st["edge_pop"]:
+                    for k, nd in enumerate(rawtree.raw_nodes(stree)):
+                        nd.edge.pop_size = [0.5, 1.0, 2.0, 10.0][k % 4]
+                self._species = (sns, stree)
             if sim == "contained_coalescent":
                 mapping = dendropy.TaxonNamespaceMapping.create_contained_taxon_mapping(
                     containing_taxon_namespace=sns, num_contained=list(st["genes"][:len(labels)]))
@@ -113,10 +121,23 @@ class C18(Machine):
                 return "contained", gt, (stree, g2s)
             for k, lf in enumerate(nd for nd in rawtree.raw_nodes(stree) if not nd._child_nodes):
                 lf.num_genes = st["genes"][k % len(st["genes"])]
-            gt, wt = coalescent.constrained_kingman_tree(stree, rng=rng, gene_sampling_strategy="node_attribute",
-                                                         gene_node_label_fn=lambda x, y: "%s_%02d" % (x, y))
+            strategy = st.get("strategy", "node_attribute")
+            kw = {}
+            if strategy == "fixed_per_population":
+                kw["num_genes"] = st["genes"][0]
+            elif strategy == "random_uniform" and st["genes"][0] > 2:
+                kw["num_genes"] = st["genes"][0] + st["nspecies"]
+            gt, wt = coalescent.constrained_kingman_tree(stree, rng=rng, gene_sampling_strategy=strategy,
+                                                         gene_node_label_fn=lambda x, y: "%s_%02d" % (x, y), **kw)
             g2s = dict((lf.taxon.label, lf.taxon.label.rsplit("_", 1)[0]) for lf in rawtree.raw_nodes(gt) if not lf._child_nodes)
-            return "contained", gt, (stree, g2s)
+            nleaves = sum(1 for nd in rawtree.raw_nodes(stree) if not nd._child_nodes)
+            if strategy == "node_attribute":
+                expected = sum(st["genes"][k % len(st["genes"])] for k in range(nleaves))
+            elif strategy == "fixed_per_population":
+                expected = kw["num_genes"] * nleaves
+            else:
+                expected = kw.get("num_genes", nleaves)
+            return "contained", gt, (stree, g2s, expected)
         if sim == "discrete_time_to_coalescence":
             ng = max(2, n)
             frac = {None: 1.0, 1: 1.0, 0.5: 0.5, 10: 0.1, 1000: 0.01}[st["pop_size"]]
@@ -161,6 +182,7 @@ class C18(Machine):
             sim = st["sim"]
             rng = SimRNG(st["seed"], adversarial=st["adversarial"])
             state0 = rng.getstate()
+            self._species = None
             (res, post), exc, g, tripped = self._guarded(st, rng, st["seed"] ^ 0x5555)
             rec.ticks += g.used
             if g.expired:
@@ -281,7 +303,7 @@ class C18(Machine):
                 return ("not_ultrametric", "tip depths differ: min %r max %r" % (min(ds), max(ds)))
             return None
         if kind == "contained":
-            stree, g2s = extra
+            stree, g2s = extra[0], extra[1]
             snodes, sbelow = rawtree.clade_sets(stree, key=lambda t: t.label)
             sdepth = {id(snodes[0]): 0.0}
             for nd in snodes[1:]:
@@ -297,12 +319,14 @@ class C18(Machine):
                         if best is None or len(c) < len(sbelow[id(best)]):
                             best = nd
                 return sage[id(best)]
-            want = sum(1 for _ in g2s)
+            want = extra[2] if len(extra) > 2 else sum(1 for _ in g2s)
             if len(leaves) != want:
                 return ("leaf_count", "gene tree has %d leaves for %d genes" % (len(leaves), want))
             labs = [lf.taxon.label if lf.taxon is not None else None for lf in leaves]
             if len(set(labs)) != len(labs) or any(l not in g2s for l in labs):
                 return ("gene_taxa", "gene leaves do not carry each gene taxon exactly once: %s" % labs)
+            if any(lf.taxon not in tree.taxon_namespace for lf in leaves):
+                return ("taxon_not_in_namespace", "a gene leaf's taxon is not a member of the gene tree's namespace")
             anc = {}
             for lf in leaves:
                 chain = []
